@@ -1,3 +1,66 @@
-import Cctz.Model.Parse
+/-
+  C08 — format() renders exactly the fields lookup() reports (model level).
+  `strftime` is a parameter of the model; these theorems concern what the library renders itself,
+  which text it hands to strftime, and that no format string makes it leave its buffers.
+-/
+import Cctz.Model.Format
+import Cctz.Spec.FormatSpec
+import Cctz.Proofs.FormatLemmas
+
 namespace Cctz.C08
+open Cctz Cctz.Bytes Cctz.Format Cctz.Spec
+
+/-- what lookup() may report: a valid civil second with an int64 year, an offset below 25 h -/
+def GoodLookup (al : Tz.AbsLookup) : Prop :=
+  Valid al.cs ∧ inI64 al.cs.y ∧ -90000 < al.offset ∧ al.offset < 90000
+
+/-- the renderers -/
+def format64_statement : Prop :=
+  ∀ (v : Int), format64 0 v = decInt v
+def format64_year4_statement : Prop :=
+  ∀ (y : Int), format64 4 y = year4 y
+def format02d_statement : Prop :=
+  ∀ (v : Int), 0 ≤ v → v ≤ 99 → (format02d v).ok ∧ (format02d v).val = decPad 2 v.toNat
+def formatOffset_statement : Prop :=
+  ∀ (off : Int), -90000 < off → off < 90000 →
+    (formatOffset off []).val = offHM false off ∧ (formatOffset off [58]).val = offHM true off ∧
+    (formatOffset off [58, 42]).val = offHMS off ∧ (formatOffset off [58, 42, 58]).val = offMin off ∧
+    (formatOffset off []).ok ∧ (formatOffset off [58]).ok ∧ (formatOffset off [58, 42]).ok ∧ (formatOffset off [58, 42, 58]).ok
+
+/-- literal text passes through unchanged: a format without '%' is copied verbatim and strftime is
+not consulted -/
+def literal_statement : Prop :=
+  ∀ (fmt : Bytes) (al : Tz.AbsLookup) (t fs : Int), (∀ c ∈ fmt, c ≠ 37) → fmt ≠ [] →
+    (formatSegs fmt al t fs).val.2 = [Seg.lit fmt]
+
+/-- doubled percent signs: "%%" renders "%", for any surrounding literal text -/
+def percent_statement : Prop :=
+  ∀ (a b : Bytes) (al : Tz.AbsLookup) (t fs : Int), (∀ c ∈ a, c ≠ 37) → (∀ c ∈ b, c ≠ 37) →
+    (render (fun _ _ => []) (formatSegs (a ++ [37, 37] ++ b) al t fs).val.1 (formatSegs (a ++ [37, 37] ++ b) al t fs).val.2)
+      = a ++ [37] ++ b
+
+/-- the RFC 3339 format: every field is the documented rendering of what lookup() reports, strftime
+is not consulted -/
+def rfc3339_statement : Prop :=
+  ∀ (al : Tz.AbsLookup) (t fs : Int), GoodLookup al → 0 ≤ fs → fs < 1000000000000000 →
+    let r := formatSegs (ofString "%Y-%m-%d%ET%H:%M:%E*S%Ez") al t fs
+    r.ok ∧ (∀ sg ∈ r.val.2, ∃ b, sg = Seg.lit b) ∧
+    render (fun _ _ => []) r.val.1 r.val.2 =
+      decInt al.cs.y ++ [45] ++ decPad 2 al.cs.m.toNat ++ [45] ++ decPad 2 al.cs.d.toNat ++ [84] ++
+      decPad 2 al.cs.hh.toNat ++ [58] ++ decPad 2 al.cs.mm.toNat ++ [58] ++ decPad 2 al.cs.ss.toNat ++
+      (if fracStar fs = [] then [] else 46 :: fracStar fs) ++ offHM true al.offset
+
+/-- no format string, however malformed, makes the cursor loop run away, index outside the format
+string, or overrun the 21-byte scratch buffer -/
+def format_safe_statement : Prop :=
+  ∀ (fmt : Bytes) (al : Tz.AbsLookup) (t fs : Int), GoodLookup al → inI64 t → 0 ≤ fs → fs < 1000000000000000 →
+    (formatSegs fmt al t fs).flags.oob = false ∧ (formatSegs fmt al t fs).flags.fuel = false ∧
+    (formatSegs fmt al t fs).flags.unset = false
+
+/-- the scratch buffer size and the specifier set are the documented ones -/
+def constants_statement : Prop :=
+  Gen.formatBufSize = 21 ∧ Gen.kDigits10_64 = 18 ∧
+  Gen.formatSimpleSpecs = [89, 109, 100, 101, 85, 117, 87, 119, 72, 77, 83, 122, 90, 115, 37] ∧
+  Gen.kExp10.length = 19 ∧ Gen.formatEDigits = (0, 0, 1024)
+
 end Cctz.C08
